@@ -46,7 +46,7 @@ Proof. intros H. induction l as [|x t IH]; [reflexivity|]. cbn. rewrite H, IH. r
 
 Section F1C.
 Variable fb : flat.
-Hypothesis HF : frag1 fb = true.
+Hypothesis HF : frag2 fb = true.
 
 Local Notation c := (the_crossing fb).
 Local Notation n := (length (fl_design fb)).
